@@ -64,17 +64,20 @@ Expected(s, layers) ==
   ELSE [enter |-> layers, exit |-> Reverse(layers), sendpre |-> Reverse(layers), recvpost |-> layers]
 \* the library's own recover interceptor "R" is a layer like any other but does not log
 NoR(q) == SelectSeq(q, LAMBDA n : n # "R")
+\* "U" is a UnaryInterceptorFunc: a layer of unary calls only -- on a streaming call it is transparent, and the
+\* layers around it are wrapped as if it were not there (interceptor.go UnaryInterceptorFunc.WrapStreaming*)
+Visible(s, q) == SelectSeq(q, LAMBDA n : n # "R" /\ (s.shape = "stream" => n # "U"))
 Call == /\ pc = "apply" /\ todo = <<>>
-        /\ obs' = Expected(sc, NoR(Layers(cur))) /\ pc' = "done" /\ UNCHANGED <<sc, todo, cur>>
+        /\ obs' = Expected(sc, Visible(sc, Layers(cur))) /\ pc' = "done" /\ UNCHANGED <<sc, todo, cur>>
 Next == ApplyIcs \/ ApplyGroup \/ Call
 
 (* ---- C16 ---- *)
 Done == pc = "done"
-DeclarationOrder == Done => obs.enter = NoR(Flatten(sc.opts))
+DeclarationOrder == Done => obs.enter = Visible(sc, Flatten(sc.opts))
 ExactlyOnce == Done => \A i, j \in 1..Len(obs.enter) : i # j => obs.enter[i] # obs.enter[j]
 FirstIsOutermost == Done /\ Len(obs.enter) > 0 =>
-   /\ obs.enter[1] = NoR(Flatten(sc.opts))[1]
-   /\ (sc.shape = "unary" => obs.exit[Len(obs.exit)] = NoR(Flatten(sc.opts))[1])
+   /\ obs.enter[1] = Visible(sc, Flatten(sc.opts))[1]
+   /\ (sc.shape = "unary" => obs.exit[Len(obs.exit)] = Visible(sc, Flatten(sc.opts))[1])
 
 (* ---- C19: WithRecover is the interceptor "R" ---- *)
 \* sc.panic = [value : "none"|"nil"|"error"|"string"|"struct"|"abort", at : 0.. (sends before the panic)]
@@ -85,7 +88,7 @@ Panics(s) == "panic" \in DOMAIN s /\ s.panic.value # "none"
 \* layers declared before R return normally when R converts the panic; everything else is unwound
 RECURSIVE Before(_, _)
 Before(q, n) == IF q = <<>> \/ Head(q) = n THEN <<>> ELSE <<Head(q)>> \o Before(Tail(q), n)
-ExitOnPanic(s) == IF Recovers(s) THEN Reverse(Before(Flatten(s.opts), "R")) ELSE <<>>
+ExitOnPanic(s) == IF Recovers(s) THEN Reverse(Visible(s, Before(Flatten(s.opts), "R"))) ELSE <<>>
 \* responses the client still gets before the error
 GotBefore(s) == IF s.kind \in {"unary", "client"} THEN 0 ELSE s.panic.at
 =============================================================================
